@@ -29,6 +29,8 @@ Definition prog (o : aop) : list micro :=
   | ARefused _ _ => [MLock; MWriteFail; MUnlock]
   | AAck h => [MLock; MAck h None; MUnlock]
   | AAckRefused h j => [MLock; MAck h (Some j); MUnlock]
+  | ASend KOther d | ASendRaw KOther d => [MLock; MWrite (WData d); MUnlock]
+  | AFailedAttempt | AResumed => [MLock; MUnlock]   (* not sender code: nothing happens to queue and wire *)
   | AEnabled _ => [MLock; MUnlock]      (* not an operation of this model (excluded in the theorems) *)
   end.
 
